@@ -73,20 +73,38 @@ def r2_tables(cx, descendants):
     p = params(fn)
     anys = [x for x in find_calls(fn.body, name="any")]
     ok = False
+    table_expr = None
     if anys:
         g = anys[0].args[0]
         if isinstance(g, (ast.GeneratorExp, ast.ListComp)) and isinstance(g.elt, ast.Compare) and isinstance(g.elt.ops[0], ast.In):
             hay = g.elt.comparators[0]
-            its = dict((U(c.target), U(c.iter)) for c in g.generators)
+            its = dict((U(c.target), c.iter) for c in g.generators)
             needle = U(g.elt.left)
-            ok = isinstance(hay, ast.Call) and call_attr(hay) == "lower" and its.get(U(hay.func.value)) == p[0] and its.get(needle) == p[2] and not any(c.ifs for c in g.generators)
+            table_expr = its.get(needle)
+            ok = isinstance(hay, ast.Call) and call_attr(hay) == "lower" and U(its.get(U(hay.func.value))) == p[0] and table_expr is not None and not any(c.ifs for c in g.generators)
     cx.require(ok, anys[0] if anys else fn, "a phrase matches when it is contained in the lower-cased line, for any phrase and any line", construct=short(anys[0]) if anys else "(no any(...))")
-    sel = [a for a in walk_body(fn.body) if isinstance(a, ast.Assign) and U(a.targets[0]) == p[2]]
-    ok = len(sel) == 1 and U(sel[0].value) == "%s if len(%s) > 1 else %s" % (p[2], p[0], p[1])
-    cx.require(ok, sel[0] if sel else fn, "the multi-line table applies iff there is more than one line, otherwise the single-line table", construct=short(sel[0]) if sel else "(none)")
+    want_sel = "%s if len(%s) > 1 else %s" % (p[2], p[0], p[1])
+    sel_txt = None
+    if table_expr is not None:
+        if isinstance(table_expr, ast.IfExp):
+            sel_txt = U(table_expr)
+        elif isinstance(table_expr, ast.Name):
+            sel = [a for a in walk_body(fn.body) if isinstance(a, ast.Assign) and U(a.targets[0]) == table_expr.id]
+            sel_txt = U(sel[-1].value) if sel else None
+    cx.require(sel_txt == want_sel, anys[0] if anys else fn, "the multi-line table applies iff there is more than one line, otherwise the single-line table", construct="phrases searched: %s" % sel_txt)
     rets = [r for r in walk_body(fn.body) if isinstance(r, ast.Return)]
-    ok = len(rets) == 2 and U(rets[0].value) == "False" and U(rets[1].value) == "True" and bool(anys) and any(x is anys[0] for x in ast.walk(enclosing(rets[0], ast.If).test))
-    cx.require(ok, fn, "validate_lines returns False iff a phrase matched", construct="if any(...): return False ; return True")
+    ok = False
+    if anys and rets:
+        a_txt = U(anys[0])
+        falses = [r for r in rets if U(r.value) == "False"]
+        trues = [r for r in rets if U(r.value) == "True"]
+        direct = [r for r in rets if U(r.value) == "not %s" % a_txt]
+        if direct and len(direct) + len(trues) == len(rets):
+            # return not any(...); other returns say True only for empty content
+            ok = all(((p[0], False) in guard_texts(r)) for r in trues)
+        elif len(falses) == 1 and len(falses) + len(trues) == len(rets) and trues:
+            ok = (a_txt, True) in guard_texts(falses[0]) and all(((a_txt, True) not in guard_texts(r)) for r in trues)
+    cx.require(ok, fn, "validate_lines returns False iff a phrase matched", construct="returns: %s" % [short(r, 60) for r in rets])
     # extra_bad_lines sites
     n_sites = 0
     for c in descendants:
@@ -244,9 +262,20 @@ def r4_escape_sets(cx):
     sl = [a for a in walk_body(jf.body) if isinstance(a, ast.Assign) and U(a.targets[0]) == "self.data" and "actual_start_index" in U(a.value)]
     ok = bool(sl) and U(sl[0].value) == "json.loads('\\n'.join(content[actual_start_index:]))"
     cx.require(ok, sl[0] if sl else jf, "JSON: the document is parsed from the first line starting with '{' or '[' to the end", construct=short(sl[0]) if sl else "(none)")
-    brk = [b for b in walk_body(jf.body) if isinstance(b, ast.Break)]
-    ok = bool(brk) and any("startswith('{')" in t and "startswith('[')" in t and p for t, p in guard_texts(brk[0]))
-    cx.require(ok, brk[0] if brk else jf, "JSON: the scan for the start line stops at the first '{' / '[' line", construct="break guarded by %s" % sorted(guard_texts(brk[0])) if brk else "(none)")
+    # the start index is found by a scan that stops at the first line starting with '{' or '[' - in place or in a helper method
+    scan_fn = jf
+    sd = [a for a in walk_body(jf.body) if isinstance(a, ast.Assign) and U(a.targets[0]) == "actual_start_index" and isinstance(a.value, ast.Call) and U(a.value.func).startswith("self.")]
+    if sd:
+        kc, h = cx.repo.lookup_method(m.cls("JSONParser"), sd[0].value.func.attr)
+        if h is not None:
+            scan_fn = h
+    exits = [b for b in walk_body(scan_fn.body) if isinstance(b, (ast.Break, ast.Return)) and enclosing(b, ast.For) is not None]
+    ok = False
+    for b in exits:
+        conds = " ".join(t for t, p_ in guard_texts(b, stop=enclosing(b, ast.For)) if p_)
+        if "startswith" in conds and "'{'" in conds and "'['" in conds:
+            ok = True
+    cx.require(ok, exits[0] if exits else jf, "JSON: the scan for the start line stops at the first '{' / '[' line", construct="scan exit guarded by %s" % (sorted(guard_texts(exits[0], stop=enclosing(exits[0], ast.For))) if exits else None))
 
 
 def terminates_all(body):
@@ -275,12 +304,15 @@ def r5_line_search(cx):
     if loops:
         lp = loops[0]
         src = trace(lp.iter, g)
-        ok = U(src) in ("self.lines[::-1] if reverse else self.lines",) and not has_exit(lp.body)
+        LIMIT_OPEN = set([("num is None or len(ret) < num", True), ("num is not None and len(ret) >= num", False)])
+        exits = [x for x in walk_body(lp.body) if isinstance(x, (ast.Break, ast.Continue, ast.Return))]
+        exits_ok = all(isinstance(x, ast.Break) and set(guard_texts(x, stop=lp)) <= set([("num is None", False), ("len(ret) >= num", True), ("len(ret) < num", False)]) and ("len(ret) >= num", True) in guard_texts(x, stop=lp) or ("len(ret) < num", False) in guard_texts(x, stop=lp) for x in exits)
+        ok = U(src) in ("self.lines[::-1] if reverse else self.lines",) and exits_ok
         ap = [x for x in find_calls(lp.body, attr="append")]
         ok = ok and len(ap) == 1 and U(ap[0].args[0]) == "self._parse_line(%s)" % U(lp.target)
         if ok:
             gs = set(guard_texts(ap[0], stop=lp))
-            ok = gs == set([("num is None or len(ret) < num", True), ("search_by_expression(%s)" % U(lp.target), True)])
+            ok = ("search_by_expression(%s)" % U(lp.target), True) in gs and len(gs & LIMIT_OPEN) >= 1 and len(gs) == 2
     cx.require(ok, loops[0] if loops else g, "get() walks the lines in order (or reversed), appending iff the predicate holds and the limit is not reached", construct=short(loops[0], 140) if loops else "(none)")
     rets = [r for r in g.body if isinstance(r, ast.Return)]
     cx.require(bool(rets) and U(rets[-1].value) == "ret[::-1] if reverse else ret", rets[-1] if rets else g, "a reversed search is put back into original order", construct=short(rets[-1]) if rets else "(none)")
